@@ -21,7 +21,8 @@ EXPLANATION = (
     "and drops the first w-1 outputs, so the output has the input's length for every width; (R3) deredden subtracts the "
     "running filter of the same data, detrend_1d equals the closed-form least-squares reference, and the decimating "
     "container methods scale tsamp/nsamples consistently (shared with C08). Not decided: window centring, median values, "
-    "detrend values."
+    "detrend values. "
+    "Since F47, the reference of detrend_1d takes its closed-form sums in float(m): an integer cubic in the length differs from it (R3)."
 )
 K = "sigpyproc.core.kernels"
 S = "sigpyproc.core.stats"
